@@ -9,7 +9,7 @@ from scipy.fftpack import dst as scipy_dst
 RULE = ("Domains built from dr or from dk (lengths 1-64 quick / 1-300 thorough incl. primes and 2^m +- 1, spacings log-uniform 1e-3..10) followed by random "
         "histories of dr/dk/length assignments (<= 8 quick / <= 30 thorough); after EVERY assignment length, dr, dk, len(r), len(k), r, k and the coefficient arrays are "
         "compared with the Lean model and with a freshly constructed Domain(length, dr); to_fourier/to_real of random / spiky / smooth arrays are compared with the "
-        "model's direct DST sums (and the sums with scipy.fftpack.dst), round trips both ways, linearity; MatrixArray versions for rank 1-4 with every space flag and memory layout (C, Fortran, transposed pair-table view, sub-block view) and type-label lists (default, permuted, renamed - several arrays of one rank in one process) "
+        "model's direct DST sums (and the sums with scipy.fftpack.dst), round trips both ways, linearity, (m, length) stacks row by row; MatrixArray versions (plain and IdentityMatrixArray objects given other contents; objects iterated/transformed earlier with other data and then re-assigned) for rank 1-4 with every space flag and memory layout (C, Fortran, transposed pair-table view, sub-block view) and type-label lists (default, permuted, renamed - several arrays of one rank in one process) "
         "(pairwise identical transform, symmetry, flag flip, ValueError iff already in the target space, round trip). Non-trivial = history with >= 1 setter or a "
         "non-power-of-two length; distinct = distinct case")
 EXTRA_TRUSTED = ["scipy.fftpack.dst(type=2/3) modelled by SciPy's documented direct sums; validated against SciPy on every run (suite dst); FFT rounding vs direct sum: rtol 1e-9*max|out|"]
@@ -130,6 +130,18 @@ def suite_transform(ctx, case):
     tol = 1e-11 * max(L, 10) * sc
     ctx.pred('transform', case, float(np.max(np.abs(fb - f))) <= tol, 'to_real(to_fourier(f)) != f: max err %.3g (scale %.3g)' % (np.max(np.abs(fb - f)), sc), key='C07:roundtrip')
     ctx.pred('transform', case, float(np.max(np.abs(Fb - f))) <= tol, 'to_fourier(to_real(F)) != F: max err %.3g (scale %.3g)' % (np.max(np.abs(Fb - f)), sc), key='C07:roundtrip')
+    # a stack of functions, one per row (shape (m, length)): every row is transformed along the grid axis like the 1-D array
+    if case.get('stack'):
+        rows = [f, g, a * f - g][:case['stack']]
+        try:
+            SF = np.asarray(d.to_fourier(np.array(rows))); SR = np.asarray(d.to_real(np.array(rows)))
+            oks = SF.shape == (len(rows), L) and SR.shape == (len(rows), L)
+            for q, row in enumerate(rows):
+                wF = d.to_fourier(row); wR = d.to_real(row)
+                oks = oks and bool(np.all(np.abs(SF[q] - wF) <= 1e-12 * (np.max(np.abs(wF)) + 1e-300))) and bool(np.all(np.abs(SR[q] - wR) <= 1e-12 * (np.max(np.abs(wR)) + 1e-300)))
+        except Exception as e:
+            oks = False
+        ctx.pred('transform', case, bool(oks), 'a (%d, length) stack of functions is not transformed row by row along the grid axis' % len(rows), key='C07:stack')
     # linearity
     for name, T in (('to_fourier', d.to_fourier), ('to_real', d.to_real)):
         lhs = T(a * f + g); rhs = a * T(f) + T(g)
@@ -159,7 +171,21 @@ def suite_ma(ctx, case):
             big = np.zeros((L, n + 1, n + 1)); big[:, :n, :n] = data; arr = big[:, :n, :n]  # sub-block view of a larger array
         else: arr = data.copy()
         tys = case.get('types')
-        m = MatrixArray(length=L, rank=n, data=arr, space=SP[case['sp']], types=None if tys is None else list(tys))
+        if case.get('mkind') == 'identity':
+            # an IdentityMatrixArray that no longer holds the identity (I -= X, I[a,b] = f, I.data = ...) is a MatrixArray like any other
+            from pyPRISM.core.IdentityMatrixArray import IdentityMatrixArray
+            m = IdentityMatrixArray(length=L, rank=n, space=SP[case['sp']], types=None if tys is None else list(tys))
+            if case.get('fill') == 'inplace': m.data[...] = arr
+            else: m.data = arr
+        else:
+            m = MatrixArray(length=L, rank=n, data=arr, space=SP[case['sp']], types=None if tys is None else list(tys))
+        if case.get('reassign') and case['sp'] != 'N':
+            # the object has a past: it was iterated over and transformed with OTHER contents, then given new data (what PRISM.cost does with GammaIn every iteration)
+            keepdata = m.data
+            m.data = rng.normal(size=(L, n, n)); m.data = m.data + m.data.transpose(0, 2, 1)
+            for _ in m.iterpairs(): pass
+            (d.MatrixArray_to_real if case['sp'] == 'F' else d.MatrixArray_to_fourier)(m)
+            m.data = keepdata; m.space = SP[case['sp']]
         before = m.data.copy(); sp0 = case['sp']
         seq = []
         for step, way in enumerate(dirn):
@@ -254,6 +280,7 @@ def generate(ctx):
         case = gen_dom(rng, min(maxL, ctx.n(48, 160)), 4)
         case['akind'] = rng.choice(['normal', 'normal', 'spike', 'smooth', 'wide', 'ones', 'int', 'bool']); case['aseed'] = rng.randrange(10 ** 6)
         case['a'] = float('%.4g' % rng.uniform(-3, 3)); case['decoy'] = rng.random() < 0.5
+        case['stack'] = rng.choice([0, 0, 1, 2, 3])
         L = cur_len(case)
         ctx.case('transform', case, True, tags=['akind:' + case['akind'], 'L<=%d' % (16 * ((L + 15) // 16)), 'hist' if case['ops'] else 'nohist'])
         suite_transform(ctx, case)
@@ -266,8 +293,9 @@ def generate(ctx):
         case['dirs'] = [rng.choice(['F', 'R', 'FR', 'RF', 'FF', 'RR', 'FRF', 'RFR'])]
         case['layout'] = rng.choice(['C', 'C', 'F', 'T', 'sub'])
         case['zero'] = rng.random() < 0.15
+        case['mkind'] = rng.choice(['plain', 'plain', 'identity']); case['fill'] = rng.choice(['assign', 'inplace']); case['reassign'] = rng.random() < 0.3
         # type labels: default letters, a permutation of them, or other names (several arrays of one rank with different labels in one process)
         case['types'] = rng.choice([None, None, rng.sample(['A', 'B', 'C', 'D'][:case['rank']], case['rank']), ['poly', 'B', 'solvent', 'D4'][:case['rank']],
                                     [1, 0, 3, 2][:case['rank']] if case['rank'] != 3 else [2, 0, 1], [10, 20, 30, 40][:case['rank']], [1, 2, 3, 4][:case['rank']]])      # integer labels that are not their positions
-        ctx.case('ma', case, True, tags=['zero' if case['zero'] else 'nonzero', 'rank:%d' % case['rank'], 'sp:' + case['sp'], 'dirs:' + case['dirs'][0], 'layout:' + case['layout']])
+        ctx.case('ma', case, True, tags=['zero' if case['zero'] else 'nonzero', 'kind:' + case['mkind'], 'reassigned' if case['reassign'] else 'fresh', 'rank:%d' % case['rank'], 'sp:' + case['sp'], 'dirs:' + case['dirs'][0], 'layout:' + case['layout']])
         suite_ma(ctx, case)
